@@ -21,7 +21,7 @@ import (
 func O10(rc *RC, floor int) {
 	rc.S.Declare("O10", "scalar-buffer ownership: every call of freeScalar is guarded by the newAlloc flag returned by scalarToHeader/prepDataVS/prepDataSV in the same function (a scalar operand that is a tensor is aliased, never pooled)", floor)
 	flagPos := map[string]int{"prepDataVS(": 6, "prepDataSV(": 6, "scalarToHeader(": 1}
-	for _, fi := range rc.P.SortedFuncs() {
+	for _, fi := range rc.P.AnalysisFuncs() {
 		if fi.Pkg != rc.P.Root || fi.Decl.Body == nil || strings.HasSuffix(fi.File, "_test.go") || fi.Key == "tensor.freeScalar" {
 			continue
 		}
@@ -90,7 +90,7 @@ func O10(rc *RC, floor int) {
 // elements than storage positions, and the copy adopts S's strides.
 func V2(rc *RC, floor int) {
 	rc.S.Declare("V2", "storage extent of raw copies: a destination allocated in the same function for copyDense(D, S) is allocated with S's storage length (S.len(), S.Len(), S.DataSize()), never with its element count", floor)
-	for _, fi := range rc.P.SortedFuncs() {
+	for _, fi := range rc.P.AnalysisFuncs() {
 		if fi.Pkg != rc.P.Root || fi.Decl.Body == nil || strings.HasSuffix(fi.File, "_test.go") || strings.HasPrefix(fi.File, "sparse") {
 			continue
 		}
@@ -192,7 +192,7 @@ var o9Release = regexp.MustCompile(`^(?:defer )?(returnOpOpt|ReturnInts|ReturnBo
 
 func O9(rc *RC, floor int) {
 	rc.S.Declare("O9", "single release: on every path of every function an object is handed to returnOpOpt / ReturnInts / ReturnBools / returnHeader / ReturnTensor at most once (explicit and deferred releases counted together)", floor)
-	for _, fi := range rc.P.SortedFuncs() {
+	for _, fi := range rc.P.AnalysisFuncs() {
 		if fi.Pkg != rc.P.Root || fi.Decl.Body == nil || strings.HasSuffix(fi.File, "_test.go") || strings.HasPrefix(fi.File, "sparse") || lcGenerated[fi.File] {
 			continue // generated engine methods: rule M7 interprets their mode cases
 		}
